@@ -193,6 +193,66 @@ def refit_sequences(run):
                             theorem="C01 (recovery; not a theorem)")
 
 
+def pipeline_change_sequences(run):
+    """a curve fitted with the user's geometry (fixed, not the model default),
+    then the preprocessing is changed WITHOUT passing the parameters again
+    (settings are remembered): the refit still uses that geometry and recovers
+    the generating modulus"""
+    from nanite import model
+    base = ["compute_tip_position"]
+    changes = {
+        "tip offset switched on": (base, base + ["correct_tip_offset"]),
+        "tip offset switched off": (base + ["correct_tip_offset"], base),
+        "force offset added": (base, base + ["correct_force_offset"]),
+        "tip offset on, then force offset": (
+            base, base + ["correct_tip_offset", "correct_force_offset"]),
+    }
+    for mk, geo in (("hertz_para", {"R": 5e-6}), ("hertz_cone",
+                                                   {"alpha": 12.0}),
+                    ("sneddon_spher_approx", {"R": 2.5e-5, "nu": 0.4})):
+        true = fits.default_params(mk, E=5000.0, contact_point=3e-7,
+                                   baseline=0.0, **geo)
+        cols = fits.model_curve(mk, true, n_app=300, n_ret=100)
+        for cname, (pre1, pre2) in changes.items():
+            key = f"pipeline-change:{mk}:{cname}"
+            run.case({"pipeline-change": cname, "model": mk, "geometry": geo},
+                     kind="pipeline-change")
+            try:
+                with warnings.catch_warnings():
+                    warnings.simplefilter("ignore")
+                    idnt = curves.make_indentation(cols)
+                    p = model.models_available[mk].get_parameter_defaults()
+                    for g_, v_ in geo.items():
+                        p[g_].set(value=v_, vary=False)
+                    p["E"].set(value=2000.0)
+                    p["contact_point"].set(value=3.3e-7)
+                    idnt.fit_model(model_key=mk, params_initial=p,
+                                   preprocessing=list(pre1))
+                    e1 = abs(idnt.fit_properties["params_fitted"]["E"].value
+                             / true["E"] - 1)
+                    idnt.fit_model(preprocessing=list(pre2))
+                    fp = idnt.fit_properties
+                    pf = fp["params_fitted"]
+                    e2 = abs(pf["E"].value / true["E"] - 1)
+                    used = {g_: float(pf[g_].value) for g_ in geo}
+                why = None
+                if e1 > 1e-5:
+                    run.count("pipeline-change-control-not-recovered(logged)")
+                elif not fp.get("success"):
+                    why = "the refit reports success False"
+                elif used != {g_: float(v_) for g_, v_ in geo.items()}:
+                    why = (f"the refit used the geometry {used}, the user "
+                           f"gave {geo} (modulus error {e2:.2e})")
+                elif e2 > 1e-5:
+                    why = f"the refit reports a modulus error of {e2:.2e}"
+            except BaseException as e:
+                why = f"raised {type(e).__name__}: {e}"
+            if why:
+                run.failing(SITE, key, f"{mk}, {cname}: {why}",
+                            payload={"kind": "rerun"},
+                            theorem="C01 (recovery; not a theorem)")
+
+
 def default_guess_sequences(run):
     """the documented workflow 'get the initial parameters, edit them, fit',
     followed by a fit with the library's own initial guess
@@ -566,6 +626,7 @@ def check(run):
                  "the fitted segment")
     refit_sequences(run)
     default_guess_sequences(run)
+    pipeline_change_sequences(run)
     geometry_cases(run)
     geometry_relative_cases(run)
     process_state_cases(run)
